@@ -439,7 +439,7 @@ func (c12) Run(t *tape.Tape, cfg sim.Config) (res sim.Result) {
 	case 6:
 		// guest-chosen debug sections: rows without a file (read only when debug info is enabled and a
 		// stack trace is built)
-		bin = append(bin, wasmb.DegenerateDWARF()...)
+		bin = append(bin, wasmb.DegenerateDWARFKind(t.Choose(3))...)
 		res.Stat("probe.degenerate_dwarf_sections", 1)
 	case 1:
 		bin = append(bin, full...)
